@@ -15,7 +15,10 @@ use verif_harness::txops::*;
 use verif_harness::*;
 
 #[derive(Clone, Copy, Debug, PartialEq)]
-enum Kind { Commit, Rollback, DropTx, Ro,
+enum Kind { Commit, Rollback, DropTx,
+    /// the thread panics while the transaction is open (a panic in user code): the unwinding drops the transaction
+    Panic,
+    Ro,
     /// a single-operation helper of `SingleWriterTxKeyspace` (insert / remove / take / fetch_update / update_fetch):
     /// documented to run as a one-operation write transaction
     Helper }
@@ -94,6 +97,7 @@ fn agent_body(id: usize, jobs: Vec<Job>, db: SingleWriterTxDatabase, kss: Vec<Si
             match job.kind {
                 Kind::Commit => { let r = tx.commit(); /* parks inside at swtx.committed */ push_out(id, match r { Ok(()) => "commit:ok".into(), Err(e) => format!("commit:err:{e:?}") }); }
                 Kind::Rollback => tx.rollback(),
+                Kind::Panic => { let _ = std::panic::catch_unwind(std::panic::AssertUnwindSafe(move || { let _tx = tx; panic!("user code panics inside the transaction"); })); }
                 _ => drop(tx),
             }
         }
@@ -111,7 +115,7 @@ fn gen_jobs(r: &mut Rng, nks: usize, thorough: bool) -> Vec<Vec<Job>> {
     let hot = gen_key(r);
     (0..nth).map(|_| {
         (0..r.range(1, 3)).map(|_| {
-            let kind = match r.below(12) { 0 => Kind::Rollback, 1 => Kind::DropTx, 2 | 3 => Kind::Ro, 4 | 5 | 6 => Kind::Helper, _ => Kind::Commit };
+            let kind = match r.below(13) { 0 => Kind::Rollback, 1 => Kind::DropTx, 2 | 3 => Kind::Ro, 4 | 5 | 6 => Kind::Helper, 7 => Kind::Panic, _ => Kind::Commit };
             let ops = if kind == Kind::Helper {
                 let k = r.range(0, nks - 1);
                 let key = if r.chance(1, 2) { hot.clone() } else { gen_key(r) };
@@ -309,7 +313,8 @@ fn run_case(seed: u64, lean: &mut Lean, hist: &mut BTreeMap<String, u64>, sample
                         if a != "readdone" && !no_model() { fails.push(Failure { kind: "model-vs-impl", detail: format!("end of read_tx: model says `{a}`") }); }
                     }
                     _ => {
-                        trace.push(format!("t{id}:rollback"));
+                        trace.push(format!("t{id}:{}", if job.kind == Kind::Panic { "thread panics inside the transaction (dropped by unwinding)" } else { "rollback" }));
+                        if job.kind == Kind::Panic { *hist.entry("panic-inside-transaction".into()).or_insert(0) += 1; }
                         job_ix[id] += 1; tx_outs[id].clear();
                         if holder == Some(id) { holder = None; }
                         if a != "rolledback" && !no_model() { fails.push(Failure { kind: "model-vs-impl", detail: format!("rollback: model says `{a}`") }); }
